@@ -32,7 +32,7 @@ CLAIMED = {
          "identical for every selector bit and data pattern at every length 0..3*field digits. Regular routines (ep/ep2/ed *_mul_monty "
          "and *_mul_lwreg, eb_mul_lodah, bn_mxp_monty, fp_exp_monty, fb_exp_monty, g1/g2_mul_sec, gt_exp_sec on every parameter set of "
          "the 255/256/381-bit builds): the group-level call trace must be identical within every group of scalars of EQUAL bit length (the full length in ten "
-         "classes plus base-|x| digit classes for the GLS routines; shorter lengths incl. 1..65 bits and the lengths where k+n / k+2n change length). Controls that must vary (dv_cmp, ep_mul_lwnaf, bn_mxp_slide) are run every time.",
+         "classes plus base-|x| digit classes for the GLS routines; shorter lengths incl. 1..65 bits and the lengths where k+n / k+2n change length; k = n-1, n, n+1 with keys of their own; a random subgroup point and the curve generator as base). Controls that must vary (dv_cmp, ep_mul_lwnaf, bn_mxp_slide) are run every time.",
          "Trusts that instrumentation does not change control flow at basic-block/call level; says nothing about micro-architectural timing.",
          "execution-trace monitor (trace-pc basic-block traces + group-level call traces) over secret classes", "DESIGN.md §3 C20"),
  "C08": ("fault_enumeration",
@@ -41,7 +41,8 @@ CLAIMED = {
          "degenerate scalars, KDF output lengths, short RSA buffers - all caller objects are exact-size heap blocks and every case runs "
          "under two slack-poison patterns; (b) allocation-failure enumeration on an ALLOC=DYNAMIC build with a countdown injector: each "
          "failure point of ~45 recorded calls is failed in turn, accepted outcomes are an error or the correct result, never a report, a "
-         "leak (ASan heap statistics vs the successful run) or an unusable library; (c) a reduced pass of every other property's workload "
+         "leak (ASan heap statistics vs the successful run), a destroyed or changed caller object (records include objects that must be reallocated inside the call) "
+         "or an unusable library; (c) a reduced pass of every other property's workload "
          "with the sanitizers as the only oracle.",
          "Red-zone sanitizers miss non-adjacent and intra-object overflows; only executed paths are judged; allocation failure is "
          "modelled as NULL returns of malloc/calloc/realloc.",
